@@ -6,6 +6,7 @@ package cert
 
 import (
 	"bytes"
+	"crypto"
 	"crypto/ecdh"
 	"crypto/ecdsa"
 	"crypto/ed25519"
@@ -170,6 +171,17 @@ func (k *cgSignKey) signRaw(msg []byte, form int) []byte {
 		sig, _ = cgSwapS(sig)
 	}
 	return sig
+}
+
+// signDeterministic signs like signRaw but without randomness (Ed25519 is deterministic anyway,
+// ECDSA per RFC 6979 when the random source is nil). Native fuzz targets need it: the coordinator
+// and every worker process rebuild their base certificates and must arrive at the same bytes.
+func (k *cgSignKey) signDeterministic(msg []byte) ([]byte, error) {
+	if k.curve == Curve_CURVE25519 {
+		return ed25519.Sign(k.ed, msg), nil
+	}
+	h := sha256.Sum256(msg)
+	return k.ec.Sign(nil, h[:], crypto.SHA256)
 }
 
 // cgVerifyRaw verifies with the standard library only, using the algorithm of the key's curve.
